@@ -11,13 +11,23 @@ package iterator
 //@ # Data responses pass straight through. An acknowledgement is forwarded exactly when it is the
 //@ # nodeCount-th acknowledgement of the current cycle carrying the cycle's sequence number; an
 //@ # acknowledgement with a foreign sequence number is dropped and leaves the cycle untouched.
+//@ # What is forwarded is the acknowledgement merged over the cycle the way a single-node store
+//@ # merges its per-channel iterators (cesium streamIterator.exec): acknowledged iff some node
+//@ # acknowledged, carrying the first error any node reported (C07: "an iterator opened on any node
+//@ # returns ... exactly [what] a single-node store given the same writes would return").
 //@ func (s *synchronizer) sync(_ context.Context, res Response) (out Response, fulfilled bool, err error)
 //@   requires s.nodeCount >= 1 && 0 <= s.cycle.counter && s.cycle.counter < s.nodeCount
-//@   ensures err == nil && __eq(out, res)
+//@   requires s.cycle.counter != 0 ==> s.cycle.res.Variant != ResponseVariantData
+//@   ensures err == nil
+//@   ensures s.cycle.counter != 0 ==> s.cycle.res.Variant != ResponseVariantData
 //@   ensures 0 <= s.cycle.counter && s.cycle.counter < s.nodeCount && s.nodeCount == old(s.nodeCount)
-//@   ensures res.Variant == ResponseVariantData ==> fulfilled && s.cycle.counter == old(s.cycle.counter) && __eq(s.cycle.res, old(s.cycle.res))
+//@   ensures res.Variant == ResponseVariantData ==> fulfilled && __eq(out, res) && s.cycle.counter == old(s.cycle.counter) && __eq(s.cycle.res, old(s.cycle.res))
 //@   ensures res.Variant != ResponseVariantData ==> fulfilled == ((old(s.cycle.counter) == 0 || old(s.cycle.res.SeqNum) == res.SeqNum) && old(s.cycle.counter) + 1 == s.nodeCount)
 //@   ensures res.Variant != ResponseVariantData && fulfilled ==> s.cycle.counter == 0
 //@   ensures res.Variant != ResponseVariantData && old(s.cycle.counter) != 0 && old(s.cycle.res.SeqNum) != res.SeqNum ==> s.cycle.counter == old(s.cycle.counter) && __eq(s.cycle.res, old(s.cycle.res))
 //@   ensures res.Variant != ResponseVariantData && (old(s.cycle.counter) == 0 || old(s.cycle.res.SeqNum) == res.SeqNum) && !fulfilled ==> s.cycle.counter == old(s.cycle.counter) + 1 && s.cycle.res.SeqNum == res.SeqNum
+//@   ensures res.Variant != ResponseVariantData && fulfilled ==> __eq(out, s.cycle.res) && out.SeqNum == res.SeqNum && out.Variant != ResponseVariantData
+//@   ensures res.Variant != ResponseVariantData && old(s.cycle.counter) == 0 ==> s.cycle.res.Ack == res.Ack && s.cycle.res.Error == res.Error
+//@   ensures res.Variant != ResponseVariantData && old(s.cycle.counter) != 0 && old(s.cycle.res.SeqNum) == res.SeqNum ==> s.cycle.res.Ack == (old(s.cycle.res.Ack) || res.Ack)
+//@   ensures res.Variant != ResponseVariantData && old(s.cycle.counter) != 0 && old(s.cycle.res.SeqNum) == res.SeqNum ==> s.cycle.res.Error == __ite(old(s.cycle.res.Error) != nil, old(s.cycle.res.Error), res.Error)
 //@   modifies s
